@@ -200,6 +200,7 @@ func (r *qrun) consult(item int, inner func() time.Duration) time.Duration {
 	r.grants = append(r.grants, [3]int64{int64(item), r.vnow, g})
 	return time.Duration(d)
 }
+
 // release shuts the queue down and lets the fake clock tick once more: client-go's
 // updateUnfinishedWorkLoop only notices the shutdown on a tick of its ticker, which on a fake
 // clock never comes by itself (the goroutine would stay for the rest of the run).
@@ -221,8 +222,10 @@ func snap(x int64) int64 {
 // quiesce waits until the waiting loop of the delaying queue is blocked in its select again,
 // i.e. it has consumed what AddAfter sent and handled the timers the fake clock fired (both
 // make the goroutine runnable before returning to the caller). Model-free synchronisation.
+var stackBuf = make([]byte, 1<<20) // goroutine dumps (single driver goroutine)
+
 func quiesce() {
-	buf := make([]byte, 1<<20)
+	buf := stackBuf
 	for i := 0; i < 200000; i++ {
 		n := runtime.Stack(buf, true)
 		found, ok := false, true
